@@ -385,6 +385,9 @@ func famSchedule(g *Gen, tier string, shard, nshards int) {
 	if tier == "thorough" {
 		nHist, maxBlocks, maxAdds = 1000, 30, 24
 	}
+	// the histories of this family are tiny (a dozen leaves) and there are hundreds per shard; a
+	// many-tree history costs as much as a hundred of them, so they are 1 in 20 here
+	manyEvery := 20
 	for h := 0; h < nHist; h++ {
 		s := newSchedSim(g)
 		nBlocks := 2 + g.Intn(maxBlocks)
@@ -392,6 +395,12 @@ func famSchedule(g *Gen, tier string, shard, nshards int) {
 			nBlocks = 2 + g.Intn(4)
 		}
 		style := g.Intn(4) // 0: generic, 1: tree-emptying + overwriting heavy, 2: small adds, 3: generic
+		if h%manyEvery == manyEvery-1 {
+			// a history in a forest of many trees (9 or more roots, rows >= 9; some with 12..16)
+			manySchedule(g, s, shard*(nHist/manyEvery)+h/manyEvery)
+			emitSchedule(s.blocks, limitsFor(g, len(s.slots), s.everDeleted(), h%2 == 0))
+			continue
+		}
 		if tier == "thorough" && h%125 == 124 {
 			// a few big histories: hundreds of additions per block, crossing 2^8 .. 2^12
 			bigSchedule(g, s)
@@ -642,6 +651,58 @@ func bigSchedule(g *Gen, s *schedSim) {
 		}
 		if b == nBlocks-1 {
 			nAdds = g.Intn(3)
+		}
+		s.block(del, nAdds)
+	}
+}
+
+// manySchedule: a first block of 509..2046 leaves (k%8 == 3: 4095..16382, k%32 == 9: 32767..65535;
+// AddBlockSummary takes the number of additions as a uint16), then 2..5 short blocks deleting
+// leaves of the small trees at the right edge, leaves spread over the forest, all but one
+// leaf of a tree of 16..128 leaves, or whole small trees, with few additions; a last block that
+// deletes most of what the right edge still holds.  The replay of a history on the model and
+// the oracle costs about quadratically in the number of leaves that are ever deleted (not in the
+// size of the forest), so a history deletes at most about 160 leaves.
+func manySchedule(g *Gen, s *schedSim, k int) {
+	n := manyTreeCount(k)
+	if k%8 == 3 {
+		n = hugeTreeCount(k / 8)
+	}
+	if k%32 == 9 {
+		n = giantTreeCount(k / 32)
+	}
+	s.block(nil, n)
+	nBlocks := 2 + g.Intn(4)
+	budget := 160
+	for b := 0; b < nBlocks; b++ {
+		style := manyTreeStyle(g)
+		if b == 0 && k%3 == 0 {
+			style = 2
+		}
+		var del []int
+		if style == 2 {
+			// the survivor climbs 4..7 rows
+			del = climbDeletions(g, s.alive, 4, 7, g.Intn(8), g.Intn(3) == 0)
+		} else {
+			del = manyTreeDeletions(g, s.alive, style)
+		}
+		if b == nBlocks-1 && g.Intn(2) == 0 {
+			del = rightEdge(g, s.liveIdx(), 64)
+		}
+		if len(del) > budget {
+			del = rightEdge(g, s.liveIdx(), 24)
+			if len(del) > budget {
+				del = nil
+			}
+		}
+		budget -= len(del)
+		del = append([]int(nil), del...)
+		if g.Intn(2) == 0 {
+			g.Shuffle(len(del), func(a, c int) { del[a], del[c] = del[c], del[a] })
+		}
+		nAdds := manyTreeAdds(g)
+		if style == 3 && nAdds == 0 {
+			nAdds = 1 + g.Intn(4) // additions over the emptied roots
 		}
 		s.block(del, nAdds)
 	}
